@@ -167,7 +167,7 @@ func constBig(c constant.Value) (*big.Int, bool) {
 // strLit declares (once) a string literal constant with its length and characters.
 func (vc *VC) strLit(s string) string {
 	if s == "" {
-		return "str.empty"
+		return "gs.empty"
 	}
 	if n, ok := vc.strlits[s]; ok {
 		return n
@@ -175,10 +175,10 @@ func (vc *VC) strLit(s string) string {
 	name := fmt.Sprintf("strlit_%d", len(vc.strlits))
 	vc.strlits[s] = name
 	vc.declare(name, "(declare-const "+name+" Str)")
-	vc.axiom("(= (str.len " + name + ") " + vc.idx(int64(len(s))) + ")")
+	vc.axiom("(= (gs.len " + name + ") " + vc.idx(int64(len(s))) + ")")
 	if len(s) <= 64 {
 		for i := 0; i < len(s); i++ {
-			vc.axiom(fmt.Sprintf("(= (str.at %s %s) %s)", name, vc.idx(int64(i)), vc.ilit(int64(s[i]), 8)))
+			vc.axiom(fmt.Sprintf("(= (gs.at %s %s) %s)", name, vc.idx(int64(i)), vc.ilit(int64(s[i]), 8)))
 		}
 	}
 	return name
@@ -330,7 +330,7 @@ func (vc *VC) binop(op token.Token, x, y string, t, yT types.Type, specMath bool
 		case token.ADD:
 			return vc.strCat(x, y), t
 		case token.LSS, token.LEQ, token.GTR, token.GEQ:
-			c := vc.ufun("str.cmp", []string{"Str", "Str"}, "Int", x, y)
+			c := vc.ufun("gs.cmp", []string{"Str", "Str"}, "Int", x, y)
 			return "(" + map[token.Token]string{token.LSS: "<", token.LEQ: "<=", token.GTR: ">", token.GEQ: ">="}[op] + " " + c + " 0)", boolT
 		}
 		panic("string binop " + op.String())
@@ -625,8 +625,8 @@ func (vc *VC) unop(op token.Token, x string, t types.Type, specMath bool) string
 }
 
 func (vc *VC) strCat(x, y string) string {
-	if _, ok := vc.decls["str.cat"]; !ok {
-		vc.declare("str.cat", "(declare-fun str.cat (Str Str) Str)")
+	if _, ok := vc.decls["gs.cat"]; !ok {
+		vc.declare("gs.cat", "(declare-fun gs.cat (Str Str) Str)")
 		i := vc.idxSort()
 		add := func(a, b string) string {
 			if vc.mode == ModeBV {
@@ -646,10 +646,10 @@ func (vc *VC) strCat(x, y string) string {
 			}
 			return "(- " + a + " " + b + ")"
 		}
-		vc.axiom("(forall ((a Str) (b Str)) (! (= (str.len (str.cat a b)) " + add("(str.len a)", "(str.len b)") + ") :pattern ((str.cat a b))))")
-		vc.axiom("(forall ((a Str) (b Str) (i " + i + ")) (! (= (str.at (str.cat a b) i) (ite " + lt("i", "(str.len a)") + " (str.at a i) (str.at b " + sub("i", "(str.len a)") + "))) :pattern ((str.at (str.cat a b) i))))")
+		vc.axiom("(forall ((a Str) (b Str)) (! (= (gs.len (gs.cat a b)) " + add("(gs.len a)", "(gs.len b)") + ") :pattern ((gs.cat a b))))")
+		vc.axiom("(forall ((a Str) (b Str) (i " + i + ")) (! (= (gs.at (gs.cat a b) i) (ite " + lt("i", "(gs.len a)") + " (gs.at a i) (gs.at b " + sub("i", "(gs.len a)") + "))) :pattern ((gs.at (gs.cat a b) i))))")
 	}
-	return "(str.cat " + x + " " + y + ")"
+	return "(gs.cat " + x + " " + y + ")"
 }
 
 // mode-aware helpers on Go `int`-typed terms
